@@ -149,6 +149,7 @@ def isWaitPc : SPc → Bool
 /-- bring the notifying thread to its notification step for batch `b` and take it -/
 def doNotify {ga : Nat → Int} (v : V ga) (x : Who) (b : Nat) (sev : Sev) : R ga := do
   let v ← flush v x
+  if v.notifEv.contains b then .error s!"second notification for batch {b}" else
   match x with
   | .w =>
     let v ← act v .worker .wkAll "all items resolved (notification before the last result?)"
@@ -242,7 +243,7 @@ def feed {ga : Nat → Int} (v : V ga) : Ev → R ga
     .ok v
   | .kill x target _ => do
     let b := match x with
-      | .w => (match v.m.s.wpc with | .resolve b _ => b | _ => 0)
+      | .w => (match v.m.s.wpc with | .resolve b _ => b | .free b => b | _ => 0)
       | .s i => (match v.m.s.spc i with | .wResolve b _ => b | _ => 0)
     let v ← doNotify v x b .signal
     if b / 100 ≠ target then .error s!"signal for batch {b} sent to thread {target}" else .ok v
